@@ -736,6 +736,7 @@ def _do_op(op, detail):
         from xdis.load import load_module
         from xdis.std import make_std_api
 
+        HELD.pop(op[4], None)  # the handle is re-bound: whatever it held before is gone, also if this call fails
         version, ts, magic_int, co, is_pypy, size, sip = load_module(op[3])
         HELD[op[4]] = make_std_api(tuple(version[:2]), "pypy" if is_pypy else None)
         res["ret"] = ["held"]
@@ -744,7 +745,9 @@ def _do_op(op, detail):
 
         api = HELD.get(op[4])
         if api is None:
-            raise core.HarnessError("stdheld without stdhold (plan bug)")
+            # the stdhold that should have made it failed (corrupt slot): same answer in a history and in the reference
+            res["ret"] = ["no-api-held"]
+            return res
         version, ts, magic_int, co, is_pypy, size, sip = load_module(op[3])
         ver = tuple(version[:2])
         ins = [[canon.canon_value(f, ver) for f in (x.offset, x.opcode, x.opname, x.arg, x.argval, x.argrepr,
@@ -895,6 +898,8 @@ def exec_op(op, detail=False):
     try:
         try:
             res = _trampoline(op, detail)
+        except core.HarnessError:
+            raise
         except Exception as e:
             exc = type(e).__name__
             res = {"ret": canon.canon_exception(e), "text": None}
